@@ -305,6 +305,7 @@ def check_fee_message(ctx, model):
 
 def run(ctx):
     model = ctx.model()
+    check_expand_same_asset(ctx, model)
     # L9: the v1.0.6 storage migration keeps every flow ledger (funded asset, claimed_amount, emitted_tokens, epochs)
     from .common import check_migration_copy
     check_migration_copy(ctx, model, "C12-L9", "incentive::migrations::migrate_to_v106", "pool_network::incentive::Flow", {"flow_label", "asset_history"})
@@ -374,3 +375,28 @@ def check_claim_bound(ctx, model):
         ctx.ob("C12-L7", "%s|new-claimed-total-bounded-by-funding" % p, ok,
                "stored claimed total is a sum: %s; a rejecting `that sum > funded amount` dominates the store: %s; bound derived from the flow's funded amount: %s"
                % (is_sum, bool(pass_edges) and v.edge_dominated(sb, pass_edges), ok_funded), v.where(sb))
+
+
+def check_expand_same_asset(ctx, model):
+    """L1 (expand): an expansion adds to the flow's funded amount only tokens of the flow's OWN reward asset: the FLOWS.save
+    in expand_flow is dominated by `flow.flow_asset.info == flow_asset.info` whatever the kind of the offered asset."""
+    v = ctx.view(EXPAND, "C12-L1")
+    if v is None:
+        return
+    saves = storage_calls(v, "incentive::state::FLOWS", ("save",))
+    flow_param = _param_of_type(v, "pool_network::asset::Asset")
+    edges = []
+    for b, c, _ in switch_conds(v):
+        if c.kind != "cmp" or c.op not in ("==", "!="):
+            continue
+        at = cond_at(v, c)
+        oa, ob = v.origins_of_operand(c.a, at=at), v.origins_of_operand(c.b, at=at)
+        # the stored flow (loaded from FLOWS directly or found in the collected FLOWS range)
+        stored = lambda os_: bool(os_) and all(o.kind in ("load", "call") and tuple(o.proj[-2:]) == ("flow_asset", "info") for o in os_)
+        offered = lambda os_: bool(os_) and all(o.kind == "param" and o.a == flow_param and tuple(o.proj) == ("info",) for o in os_)
+        if (stored(oa) and offered(ob)) or (stored(ob) and offered(oa)):
+            te, fe = cmp_true_false_edges(v, b, c)
+            edges += te if c.op == "==" else fe
+    ok = bool(saves) and bool(edges) and all(v.edge_dominated(sb, edges) for sb, _ in saves)
+    ctx.ob("C12-L1", "expand_flow|same-asset-as-the-flow", ok,
+           "FLOWS.save dominated by stored flow asset == offered asset: %s" % ok, v.where(saves[0][0]) if saves else v.where())
